@@ -262,4 +262,6 @@ Proof.
       destruct (length (c_part c ++ [x]) =? 128)%nat; reflexivity.
     + rewrite c_first_push. unfold c_push.
       destruct (length (c_part c ++ [x]) =? 128)%nat; cbn [c_split]; apply (wf_split c W).
+    + unfold c_push. cbn [c_da c_blocks c_part].
+      destruct (length (c_part c ++ [x]) =? 128)%nat eqn:E; [reflexivity|]. intros Hfull2. lia.
 Qed.
